@@ -607,7 +607,7 @@ def do_replay(cx, prop, path):
     bad = False
     for r in rows:
         v = r['f'].get(spec['column'], 'na')
-        print('%-10s %-40s -> %s %r | model=%s %s | spec[%s]=%s class=%s' % (r['seq'], pretty_cmd(r['cmd'])[:40], r['kind'], r['payload'][:50], r['model'], r['detail'][:120], spec['column'], v, r['f'].get('cls')))
+        print('%-10s %-40s -> %s %r | model=%s %s | spec[%s]=%s class=%s' % (r['seq'], pretty_cmd(r['cmd'])[:40], r['kind'], r['payload'][:50], r['model'], r['detail'][:120], spec['column'], v, r['f'].get(spec.get('clscol', 'cls'))))
     if rows and failing(rows[-1], spec['column']):
         bad = True
         print('REPRODUCED: last transition still departs (model=%s, spec=%s)' % (rows[-1]['model'], rows[-1]['f'].get(spec['column'])))
